@@ -18,6 +18,7 @@ def signed_dim_tuples(ndim):
         for sub in itertools.combinations(range(ndim), k):
             for c in itertools.product(*[(d, d - ndim) for d in sub]):
                 out.append(tuple(c))
+                if k >= 2: out.append(tuple(reversed(c)))      # the order in which a caller lists the axes carries no meaning
     return out
 
 def broadcast_shape(a, b):
